@@ -8,9 +8,8 @@
 //! be true (gamma) in the post-state.
 
 use crate::mk;
-use crate::ob_gen::{gamma_reg, load_result, store_result, LA_ADDR};
-use crate::ob_props::draw_regs;
-use crate::rvref::{self, Alu, RInst, Regs, Width};
+use crate::ob_gen::{draw_rf, gamma_reg, load_result, store_result, LA_ADDR};
+use crate::rvref::{self, Alu, RInst, RegRead, Width, RF};
 use crate::src::Src;
 use riscv_analysis::analysis::verif_hooks as rules;
 use riscv_analysis::analysis::{AvailableValue, MemoryLocation};
@@ -28,6 +27,14 @@ pub enum V {
     InCsr,
 }
 
+/// The register a variant mentions (0 if none).
+pub fn vreg(v: V) -> u8 {
+    match v {
+        V::Orig(q) | V::Rws(q) | V::MemOrig(q) => q,
+        _ => 0,
+    }
+}
+
 pub fn mkv(v: V, payload: i32) -> Option<AvailableValue> {
     Some(match v {
         V::Absent => return None,
@@ -40,7 +47,7 @@ pub fn mkv(v: V, payload: i32) -> Option<AvailableValue> {
     })
 }
 
-fn assume_gamma<S: Src>(s: &mut S, m: &AvailableValueMap<Register>, entry: &Regs, cur: &Regs) {
+fn assume_gamma<S: Src>(s: &mut S, m: &AvailableValueMap<Register>, entry: &RF, cur: &RF) {
     for (r, v) in m {
         if let Some(ok) = gamma_reg(v, r.to_num(), entry, cur) {
             s.assume(ok);
@@ -63,6 +70,9 @@ const IARITH_ALU: [Alu; 9] = [
 ];
 
 pub struct MathCase {
+    /// index into mk::ARITH (register form) or mk::IARITH (immediate form): concrete, because a symbolic
+    /// operator makes the formula (5 M variables) too large for the caps
+    pub op: u8,
     pub imm_form: bool,
     pub rd: u8,
     pub rs1: u8,
@@ -73,7 +83,7 @@ pub struct MathCase {
 
 /// rule_perform_math_ops
 pub fn rule_math<S: Src>(s: &mut S, c: &MathCase) {
-    let opi = s.choice(if c.imm_form { 9 } else { 18 }) as usize;
+    let opi = c.op as usize;
     let imm = s.i32();
     let (x, y) = (s.i32(), s.i32());
     let (node, ri) = if c.imm_form {
@@ -97,17 +107,21 @@ pub fn rule_math<S: Src>(s: &mut S, c: &MathCase) {
             inm.insert(mk::reg(c.rs2), v);
         }
     }
-    let entry = draw_regs(s);
-    let pre = draw_regs(s);
+    let keys = [c.rd, c.rs1, c.rs2, vreg(c.lhs), vreg(c.rhs)];
+    let entry = draw_rf(s, &keys);
+    let pre = draw_rf(s, &keys);
     assume_gamma(s, &inm, &entry, &pre);
 
     let mut out: AvailableValueMap<Register> = AvailableValueMap::new();
     rules::rule_perform_math_ops(&node, &mut out, &inm);
 
     let mut post = pre;
-    if let Some(v) = rvref::effect(&ri, &pre, 0x400).rd_value {
-        post.set(c.rd, v);
-    }
+    let written = match ri {
+        RInst::Alu { op, rs1, rs2, .. } => rvref::alu_cheap(op, pre.get(rs1), pre.get(rs2)),
+        RInst::AluImm { op, rs1, imm, .. } => rvref::alu_cheap(op, pre.get(rs1), imm as u32),
+        _ => 0,
+    };
+    post.set(c.rd, written);
     for (r, v) in &out {
         crate::seen!(true, "I:the rule derived a value");
         assert!(r.to_num() == c.rd, "[C01] rule_perform_math_ops wrote a register the instruction does not write");
@@ -125,7 +139,7 @@ pub struct ZeroCase {
     pub memv: V,
 }
 
-fn mem_val(v: &AvailableValue, entry: &Regs, cur: &Regs) -> Option<u32> {
+fn mem_val(v: &AvailableValue, entry: &RF, cur: &RF) -> Option<u32> {
     match v {
         AvailableValue::Constant(c) => Some(*c as u32),
         AvailableValue::OriginalRegisterWithScalar(q, k) => Some(entry.get(q.to_num()).wrapping_add(*k as u32)),
@@ -146,8 +160,9 @@ pub fn rule_zero<S: Src>(s: &mut S, c: &ZeroCase) {
     if let Some(v) = mkv(c.memv, y) {
         mem_in.insert(MemoryLocation::StackOffset(off), v);
     }
-    let entry = draw_regs(s);
-    let cur = draw_regs(s);
+    let keys = [c.reg, vreg(c.regv), vreg(c.memv), 2];
+    let entry = draw_rf(s, &keys);
+    let cur = draw_rf(s, &keys);
     let slot = s.u32(); // the word at E[sp] + off
     assume_gamma(s, &inm, &entry, &cur);
     for (_, v) in &mem_in {
@@ -207,8 +222,9 @@ pub fn rule_load<S: Src>(s: &mut S, c: &LoadCase) {
     s.assume(other_off != total as i32);
     mem_in.insert(MemoryLocation::StackOffset(other_off), AvailableValue::Constant(z));
 
-    let entry = draw_regs(s);
-    let pre = draw_regs(s);
+    let keys = [c.rd, c.base, vreg(c.basev), vreg(c.slotv), 2];
+    let entry = draw_rf(s, &keys);
+    let pre = draw_rf(s, &keys);
     let word = s.u32(); // the 32-bit word at the load address
     assume_gamma(s, &inm, &entry, &pre);
     // gamma(mem_in) in the pre-state, for the slot the load addresses (when it is that slot)
@@ -265,8 +281,9 @@ pub fn rule_to_stack<S: Src>(s: &mut S, c: &StackCase) {
     // the analyzer adds offsets in i32 (overflow is C06's business, checked by rule_to_stack_nopanic)
     let total = (x as i64) + (k as i64);
     s.assume(total >= i32::MIN as i64 && total <= i32::MAX as i64);
-    let entry = draw_regs(s);
-    let cur = draw_regs(s);
+    let keys = [c.reg, vreg(c.regv), 2];
+    let entry = draw_rf(s, &keys);
+    let cur = draw_rf(s, &keys);
     let slot = s.u32();
     assume_gamma(s, &inm, &entry, &cur);
     s.assume(slot == cur.get(c.reg).wrapping_add(k as u32));
@@ -325,7 +342,7 @@ pub fn rule_csr_push<S: Src>(s: &mut S, c: &CsrCase) {
     let width = [Width::B, Width::H, Width::W][wi];
     let mut inm: AvailableValueMap<Register> = AvailableValueMap::new();
     inm.insert(mk::reg(c.base), AvailableValue::ValueInCsr(CsrImm::new(csrn)));
-    let pre = draw_regs(s);
+    let pre = draw_rf(s, &[c.src, c.base]);
     let old = s.u32();
     let mut mem: AvailableValueMap<MemoryLocation> = AvailableValueMap::new();
     rules::rule_push_value_to_csr_memory(&node, &mut mem, &inm);
@@ -360,8 +377,8 @@ pub fn rule_csr_pull<S: Src>(s: &mut S, c: &CsrCase) {
     mem.insert(MemoryLocation::CsrRegisterValueOffset(CsrImm::new(csrn), imm), AvailableValue::Constant(z));
     s.assume(other != imm);
     mem.insert(MemoryLocation::CsrRegisterValueOffset(CsrImm::new(csrn), other), AvailableValue::Constant(z.wrapping_add(1)));
-    let entry = draw_regs(s);
-    let pre = draw_regs(s);
+    let entry = draw_rf(s, &[c.src, c.base]);
+    let pre = draw_rf(s, &[c.src, c.base]);
     // gamma(mem): the word at (snapshot + imm) is z, and the base register holds the snapshot
     let word = z as u32;
     rules::rule_pull_value_from_csr_memory(&node, &mut out, &mem);
